@@ -1,6 +1,6 @@
 /- C04: a frame's body-length field equals the number of body bytes emitted (frame_len_exact at Gen.env);
    the four self-measuring frames were recognised with the pinned shape. -/
-import FinProto.Obl.Pinned
+import FinProto.Obl.SPinnedTypes
 import FinProto.Props.EncLemmas
 set_option linter.defProp false
 namespace FinProto.Obl
